@@ -29,6 +29,7 @@ class Validation:
         self.replies = []
         self.features = set()
         self.model_build = None
+        self.convex = True
 
     def kinds(self):
         return {d['kind'] for d in self.disc}
@@ -82,6 +83,28 @@ def attr_facts(types, e):
     trigger = dst_is_in and (tb == 'event-based' or (tb == 'hybrid' and da == 'ti'))
     nontrigger = dst_is_in and not trigger
     return src_is_out, dst_is_in, nontrigger, trigger, persistent
+
+
+def convex(case):
+    """no walk between two members of a group's subtree leaves that subtree (DESIGN.md 3.2): then all delays that
+    are ever compared have equal shape.  Non-convex scenarios belong to known finding F9/F13."""
+    n = case['n']; grp = [tuple(g) for g in case['grp']]
+    adj = {i: set() for i in range(n)}
+    for e in case['edges']: adj[e['a']].add(e['b'])
+    def reach(srcs):
+        seen = set(srcs); todo = list(srcs)
+        while todo:
+            x = todo.pop()
+            for y in adj[x]:
+                if y not in seen: seen.add(y); todo.append(y)
+        return seen
+    groups = {g[:k] for g in grp for k in range(1, len(g) + 1)}
+    for G in groups:
+        M = {i for i in range(n) if grp[i][:len(G)] == G}
+        out_first = {y for x in M for y in adj[x] if y not in M}
+        if not out_first: continue
+        if reach(out_first) & M: return False
+    return True
 
 
 def scenario_lines(case, lazy, cache, tok, start_order):
@@ -176,6 +199,9 @@ def validate(run, case, model, lazy=True, cache=True, tables_from='model') -> Va
         start_order = list(run.world.sims)
     else:
         start_order = [f'S{k}' for k in range(case['n'])]
+    v.convex = convex(case)
+    if not v.convex and run.world is not None and run.build_error is None:
+        tables_from = 'impl'     # the ancestors table is not unique for such scenarios (order of set.pop()); follow the implementation
     if tables_from == 'model' or run.world is None:
         L, idx = scenario_lines(case, lazy, cache, tok, start_order)
         v.static_lines = L
@@ -263,10 +289,10 @@ def validate(run, case, model, lazy=True, cache=True, tables_from='model') -> Va
             if r.startswith('err'):
                 kind, who = r.split()[1], int(r.split()[2]) if len(r.split()) > 2 else None
                 expect = {'reply': 'reply', 'backwards': 'internal:backwards'}.get(kind, kind)
-                if not (v.impl_kind == expect and at >= nlog - 3):
+                if v.impl_kind != expect:
                     v.disc.append(dict(kind='model_err:' + kind, at=at, detail=f'model: {r}; implementation: {v.impl_outcome[:80]}'))
-                elif expect == 'reply' and v.impl_sim != list(idx)[who]:
-                    v.disc.append(dict(kind='outcome', at=at, detail=f'error names {v.impl_sim}, model names {list(idx)[who]}'))
+                elif expect == 'reply' and v.impl_sim != sid:
+                    v.disc.append(dict(kind='outcome', at=at, detail=f'the reply of {sid} is refused by the model, the implementation error names {v.impl_sim}'))
                 break
         elif k == 'DATA':
             _, sid, ot, data, has_time = l
@@ -278,8 +304,10 @@ def validate(run, case, model, lazy=True, cache=True, tables_from='model') -> Va
             if r.startswith('err'):
                 kind = r.split()[1]
                 expect = {'outtime': 'outtime', 'backwards': 'internal:backwards'}.get(kind, kind)
-                if not (v.impl_kind == expect and at >= nlog - 3):
+                if v.impl_kind != expect:
                     v.disc.append(dict(kind='model_err:' + kind, at=at, detail=f'model: {r}; implementation: {v.impl_outcome[:80]}'))
+                elif expect == 'outtime' and v.impl_sim != sid:
+                    v.disc.append(dict(kind='outcome', at=at, detail=f'the output time of {sid} is refused by the model, the implementation error names {v.impl_sim}'))
                 break
         elif k == 'QUIESCE':
             r = send("QUIESCE", at)
